@@ -779,3 +779,15 @@ Proof.
   intros Hi Hr. destruct (run_G c ins n n' Hr Hi) as (_ & Hh & S). split; [exact Hh|].
   intro E. destruct (S E) as (A & _ & B). split; assumption.
 Qed.
+
+(* the proposal rule: a proposer that holds a lock proposes the locked block (None stands for a
+   freshly created block), for its current round, with the proof-of-lock round its vote sets give *)
+Theorem proposal_rule n n' o r polr lb : decide_proposal n = Ok (n', o) -> In (OProposal r polr lb) o ->
+  r = round n /\ lb = lblock n /\ (exists b, pol_info (votes n) = Ok (polr, b)).
+Proof.
+  unfold decide_proposal. destruct (negb _); [intro E; injection E as _ <-; intros []|].
+  destruct (pol_info (votes n)) as [[p b]| |] eqn:Ep; try discriminate.
+  destruct (sign_check _ _ _ _ _); intro E; injection E as _ <-; cbn; intro Hin;
+    repeat (destruct Hin as [Hin|Hin]); try discriminate; try contradiction.
+  injection Hin as <- <- <-. split; [reflexivity|]. split; [reflexivity|]. exists b. reflexivity.
+Qed.
